@@ -37,7 +37,9 @@ Record num_order (N : Num) : Prop := mkOrder {
   ord_trans : forall a b c, nltb N a b = true -> nltb N b c = true -> nltb N a c = true;
   ord_total : forall a b, nltb N a b = false -> nltb N b a = false -> a = b;
   ord_opp : forall a b, nltb N (nopp N a) (nopp N b) = nltb N b a;
-  ord_0_1 : nltb N (n0 N) (n1 N) = true
+  ord_0_1 : nltb N (n0 N) (n1 N) = true;
+  ord_add : forall a b c, nltb N a b = true -> nltb N (nadd N a c) (nadd N b c) = true;
+  ord_mul : forall a b, nltb N (n0 N) a = true -> nltb N (n0 N) b = true -> nltb N (n0 N) (nmul N a b) = true
 }.
 
 (* nofZ is the canonical map from the integers *)
@@ -50,6 +52,7 @@ Record num_ofZ (N : Num) : Prop := mkOfZ {
 
 Record tnum_laws (T : TNum) : Prop := mkTLaws {
   tl_ring : num_ring T;
+  tl_field : num_field T;
   tl_order : num_order T;
   tl_ofZ : num_ofZ T;
   tl_eqb : forall a b, neqb T a b = true <-> a = b;
@@ -97,6 +100,8 @@ Proof.
   - unfold rltb in *. destruct (Rlt_dec a b), (Rlt_dec b a); try discriminate; lra.
   - unfold rltb. destruct (Rlt_dec (-a) (-b)), (Rlt_dec b a); auto; lra.
   - apply rltb_true; lra.
+  - apply rltb_lt in H. apply rltb_true; lra.
+  - apply rltb_lt in H, H0. apply rltb_true. apply Rmult_lt_0_compat; auto.
 Qed.
 
 Lemma RNum_ofZ : num_ofZ RNum.
@@ -110,6 +115,7 @@ Lemma RT_laws : tnum_laws RT.
 Proof.
   constructor.
   - exact RNum_ring.
+  - exact RNum_field.
   - exact RNum_order.
   - exact RNum_ofZ.
   - intros a b. simpl. unfold reqb. destruct (Req_EM_T a b); split; auto; discriminate.
@@ -144,6 +150,10 @@ Proof.
     + destruct (qleb (- b) (- a)) eqn:E2; auto. apply qleb_le in E2.
       apply Qcopp_le_compat in E2. rewrite !Qcopp_involutive in E2. apply qleb_le in E2. congruence.
   - reflexivity.
+  - apply qltb_lt in H. apply qltb_lt. apply (proj2 (Qclt_minus_iff (a + c) (b + c))).
+    replace (b + c + - (a + c))%Qc with (b + - a)%Qc by ring. apply (proj1 (Qclt_minus_iff a b)); auto.
+  - apply qltb_lt in H, H0. apply qltb_lt.
+    replace (Q2Qc 0) with (Q2Qc 0 * b)%Qc by ring. apply Qcmult_lt_compat_r; auto.
 Qed.
 
 Lemma mkq_add a b : mkq (a + b) 1 = (mkq a 1 + mkq b 1)%Qc.
@@ -166,6 +176,7 @@ Lemma QcT_laws : tnum_laws QcT.
 Proof.
   constructor.
   - exact QcNum_ring.
+  - exact QcNum_field.
   - exact QcNum_order.
   - exact QcNum_ofZ.
   - intros a b. simpl. split.
